@@ -407,7 +407,7 @@ class SymInt:
     __int__ = __index__
 
     def __hash__(self):
-        return hash(_CUR.concretize(self.t))
+        return hash(int(self))
 
     def __repr__(self):
         return "SymInt(%s)" % self.t
@@ -959,6 +959,100 @@ def sx_join(sep, it):
 
 
 # --------------------------------------------------------------------------
+class SymKeyDict(dict):
+    """a dict that may hold symbolic (SymStr/SymInt) keys: every lookup is a linear scan with ==, which forks on symbolic keys.
+    Used by harnesses to hand configuration dictionaries with a symbolic key to the code under check."""
+
+    def __init__(self, items=()):
+        dict.__init__(self)
+        self._items = []
+        for k, v in (items.items() if isinstance(items, dict) else items):
+            self[k] = v
+
+    def _find(self, k):
+        for i, (kk, _) in enumerate(self._items):
+            r = kk == k
+            if r is NotImplemented:
+                continue
+            if r:
+                return i
+        return -1
+
+    def __getitem__(self, k):
+        i = self._find(k)
+        if i < 0:
+            raise KeyError(k)
+        return self._items[i][1]
+
+    def __setitem__(self, k, v):
+        i = self._find(k)
+        if i < 0:
+            self._items.append((k, v))
+        else:
+            self._items[i] = (self._items[i][0], v)
+
+    def __delitem__(self, k):
+        i = self._find(k)
+        if i < 0:
+            raise KeyError(k)
+        del self._items[i]
+
+    def __contains__(self, k):
+        return self._find(k) >= 0
+
+    def __iter__(self):
+        return iter([k for k, _ in self._items])
+
+    def __len__(self):
+        return len(self._items)
+
+    def __bool__(self):
+        return bool(self._items)
+
+    def keys(self):
+        return [k for k, _ in self._items]
+
+    def values(self):
+        return [v for _, v in self._items]
+
+    def items(self):
+        return list(self._items)
+
+    def get(self, k, d=None):
+        i = self._find(k)
+        return d if i < 0 else self._items[i][1]
+
+    def pop(self, k, *d):
+        i = self._find(k)
+        if i < 0:
+            if d:
+                return d[0]
+            raise KeyError(k)
+        return self._items.pop(i)[1]
+
+    def setdefault(self, k, d=None):
+        i = self._find(k)
+        if i < 0:
+            self._items.append((k, d))
+            return d
+        return self._items[i][1]
+
+    def update(self, other=(), **kw):
+        for k, v in (other.items() if hasattr(other, "items") else other):
+            self[k] = v
+        for k, v in kw.items():
+            self[k] = v
+
+    def copy(self):
+        return SymKeyDict(self._items)
+
+    def __eq__(self, o):
+        raise Unsupported("== on SymKeyDict")
+
+    def __repr__(self):
+        return "SymKeyDict(%r)" % (self._items,)
+
+
 _VARS_OF = {}  # ast id -> (expr kept alive, frozenset of ids of the uninterpreted constants in it)
 
 
@@ -1041,6 +1135,7 @@ class Engine:
         self.fork_sites = {}
         self.t_path = 0.0
         self.pinned = {}  # variable id -> (forced value, index of the stack entry that forces it)
+        self.nfrozen = 0
         self.saved_queries = 0
 
     # ---- pins: variables forced to a single value by the path condition (their conditions need no solver)
@@ -1106,6 +1201,16 @@ class Engine:
             return e
         return None
 
+    def _prefix_done(self):
+        """the last decision of a frozen shard prefix has just been re-asserted: make sure the prefix is feasible at all"""
+        if self.pos == self.nfrozen:
+            r = self._check()
+            if r != z3.sat:
+                if r == z3.unknown:
+                    self.unknowns += 1
+                raise PathAbort()
+            self.model = self.solver.model()
+
     def _tick(self):
         self.events += 1
         if self.events > self.max_branch_events:
@@ -1124,6 +1229,7 @@ class Engine:
                 self.model = None
                 if e["kind"] == "p":
                     self._set_pin(e, cond, e["value"], self.pos - 1)
+                    self._prefix_done()
             return e["value"]
         if self.shard_depth is not None and len(self.stack) >= self.shard_depth:
             raise ShardCut()
@@ -1157,6 +1263,7 @@ class Engine:
                 self.model = None
                 if e["kind"] == "p":
                     self._set_pin(e, cond, True, self.pos - 1)
+                    self._prefix_done()
             return
         e = {"kind": "a", "value": True, "open": False}
         self.stack.append(e)
@@ -1188,6 +1295,7 @@ class Engine:
                 self.model = None
                 if e["kind"] == "p":
                     self._set_pin(e, expr == e["value"], True, self.pos - 1)
+                    self._prefix_done()
             return e["value"]
         if self.shard_depth is not None and len(self.stack) >= self.shard_depth:
             raise ShardCut()
@@ -1372,6 +1480,7 @@ class Engine:
     def load_prefix(self, values):
         """start below a frozen prefix of decisions (shard work item); solver constraints are rebuilt on replay"""
         self.stack = [{"kind": "p", "value": v, "open": False, "frozen": True} for v in values]
+        self.nfrozen = len(values)
         self.pinned = {}
         while self.levels > 0:
             self.solver.pop()
